@@ -52,6 +52,11 @@ def ops_for(cls, unit=1.0):
     bad = dict(Polygon="area", ConvexPolygon="perimeter", ConvexSpheropolygon="radius", Polyhedron="volume",
                ConvexPolyhedron="surface_area", ConvexSpheropolyhedron="radius")[cls]
     ops.append(("bad:" + bad, lambda o, p=bad: setattr(o, p, -1.0)))
+    # not-a-number is not a size either: refused, shape untouched (one op per class, cycling through its size properties by class name length)
+    nanp = size_props[len(cls) % len(size_props)]
+    ops.append(("bad:%s=nan" % nanp, lambda o, p=nanp: setattr(o, p, float("nan"))))
+    if cls == "ConvexPolyhedron":
+        ops.append(("bad:volume=nan", lambda o: setattr(o, "volume", float("nan"))))
     # a malformed centre (two numbers instead of three): refused, and the shape stays where it was
     if cls in ("Polygon", "ConvexPolygon", "ConvexSpheropolygon"):
         ops.append(("bad:centroid-2-vector", lambda o: setattr(o, "centroid", (0.5 * unit, -1.0 * unit))))
